@@ -47,7 +47,7 @@ RULE = ("pool of ~100 operations over seeded structured files of the seven forma
         "shared key universe, injected junk, .inc filter instructions, DTD parsed entities and "
         "android-dtd quoting, Fluent terms/attributes, PO contexts, broken and valid strings.xml) "
         "and over flat project configurations / mozpath patterns / Matcher objects; histories are "
-        "seeded random sequences of 2-6 pool operations (a tenth are chains of 40); a case is one "
+        "seeded random sequences of 2-6 pool operations (one in fifteen is a chain of 30); a case is one "
         "(history prefix, operation) pair, distinct by the pair; all are non-trivial (prefix non-empty)")
 
 FMT = ["android", "dtd", "properties", "ini", "inc", "ftl", "po"]
@@ -272,10 +272,26 @@ def build_pool(rng):
             add_text(f, "#define A 1\n\n#filter emptyLines\n#define B 2\n\n#define C 3\n")
         if fmt == "dtd":
             add_text(f, '<!ENTITY quote "it\'s \\u0041 &quot;q&quot;">\n<!ENTITY w "width: 2em">\n')
+    # entity keys of the form of junk keys: whether the junk of the partner file collides with
+    # one of them depends on the value of Junk.junkid when the operation starts
+    pf = FMT.index("properties")
+    jl = add_text(pf, "".join("_junk_%d_0-5 = v%d\n" % (i, i) for i in range(1, 9)))
+    jr = add_text(pf, "junk\n")
+    a = 0
+    while True:      # the span of the trailing junk, a fixpoint of the length of the lines above it
+        body = "".join("_junk_%d_%d-%d = v\n" % (i, a, a + 4) for i in range(1, 10))
+        if len(body) == a:
+            break
+        a = len(body)
+    jself = add_text(pf, body + "junk")
     for f in range(7):
         for i in range(len(texts[f])):
             ops.append({"k": "parse", "f": f, "t": i})
         ops.append({"k": "rewalk", "f": f})
+    ops.append({"k": "compare", "f": pf, "ref": jl, "l10n": jr, "extra": None, "merge": False})
+    ops.append({"k": "compare", "f": pf, "ref": jr, "l10n": jl, "extra": None, "merge": True})
+    ops.append({"k": "merge", "f": pf, "rs": [jl, jr]})
+    ops.append({"k": "lint", "f": pf, "ref": None, "cur": jself, "extra": None})
     for f in range(7):
         for n, (r, l) in enumerate(pairs[f]):
             if n < 2:
@@ -541,7 +557,10 @@ def snapshot(proc):
         ctx = parser_of(f).ctx
         pc.append([] if ctx is None else [ctx.contents, bool(getattr(ctx, "filter_empty_lines", False))])
     th = DTDChecker.texthandler
-    return {"junkid": Junk.junkid, "pctx": pc,
+    from compare_locales.parser.android import XMLJunk
+    return {"junkid": Junk.junkid,
+            "xjunkid": [XMLJunk.__dict__["junkid"]] if "junkid" in XMLJunk.__dict__ else [],
+            "pctx": pc,
             "dtd": th.textcontent, "dtd_set": "textcontent" in th.__dict__,
             "fcache": [([] if (c not in proc.configs or proc.configs[c]._cache is None)
                         else [proc.configs[c]._cache.locale]) for c in range(len(CONFIGS))],
@@ -569,6 +588,9 @@ def run_sequence(specs, texts):
     try:
         with contextlib.redirect_stdout(io.StringIO()):
             for spec in specs:
+                if "preset" in spec:
+                    from compare_locales.parser import Junk
+                    Junk.junkid = spec["preset"]
                 res, es = exec_op(proc, spec, texts, live)
                 live.append(es)
                 out.append({"res": res, "state": snapshot(proc)})
@@ -615,8 +637,8 @@ def run_fresh(jobs, texts, par=8):
     return outs
 
 
-def run_forked(specs, texts, timeout=120):
-    """the sequence in a child forked from this (pristine) process"""
+def fork_sequence(specs, texts, timeout=120):
+    """start the sequence in a child forked from this (pristine) process"""
     r, w = os.pipe()
     pid = os.fork()
     if pid == 0:
@@ -635,6 +657,10 @@ def run_forked(specs, texts, timeout=120):
             code = 1
         os._exit(code)
     os.close(w)
+    return pid, r
+
+
+def join_sequence(pid, r):
     with os.fdopen(r) as f:
         data = f.read()
     os.waitpid(pid, 0)
@@ -643,10 +669,33 @@ def run_forked(specs, texts, timeout=120):
     return json.loads(data)
 
 
+def run_forked(specs, texts, timeout=120):
+    return join_sequence(*fork_sequence(specs, texts, timeout))
+
+
+def run_forked_many(seqs, texts, par=6):
+    """every sequence in its own child of this process, a few at a time; results in order"""
+    outs = []
+    for i in range(0, len(seqs), par):
+        kids = [fork_sequence(s, texts) for s in seqs[i:i + par]]
+        outs.extend(join_sequence(*k) for k in kids)
+    return outs
+
+
 # ======================================================================= model ===
+def eff_counter(state, f):
+    """the counter the next Junk of format f increments (XMLJunk has its own once it exists)"""
+    if state is None:
+        return 0
+    if FMT[f] == "android" and state["xjunkid"]:
+        return state["xjunkid"][0]
+    return state["junkid"]
+
+
 class Interner:
     def __init__(self):
         self.ids = {}
+        self.id(True)      # 1: what mozpath.match returns for an empty pattern (the model's mm_empty)
 
     def id(self, obj):
         key = json.dumps(obj, sort_keys=True)
@@ -694,7 +743,8 @@ class Tables:
                 fl = st["pctx"][o["f"]][1]
                 self.walk[(o["f"], o["t"], 0)] = [o["f"], texts[o["f"]][o["t"]], 0,
                                                   [enc_pentry(p) for p in
-                                                   events_of(r["pent"], r["jid"], st["junkid"])], int(fl)]
+                                                   events_of(r["pent"], r["jid"],
+                                                             eff_counter(st, o["f"]))], int(fl)]
             elif o["k"] in ("compare", "lint", "merge", "serialize"):
                 self.vres[o["id"]] = intern.id(b["res"])
                 if st["dtd_set"]:
@@ -706,7 +756,8 @@ class Tables:
         for (f, t), b in flagrows.items():
             r, st = b["res"], b["state"]
             self.walk[(f, t, 1)] = [f, texts[f][t], 1,
-                                    [enc_pentry(p) for p in events_of(r["pent"], r["jid"], st["junkid"])],
+                                    [enc_pentry(p) for p in events_of(r["pent"], r["jid"],
+                                                                      eff_counter(st, f))],
                                     int(st["pctx"][f][1])]
 
     def op_texts(self, o):
@@ -779,7 +830,7 @@ def impl_view(seq, run, intern):
             outp = [2]
         else:
             outp = [1, intern.id(r["res"])]
-        state = [st["junkid"],
+        state = [[st["junkid"], st["xjunkid"]],
                  [([] if not pc else [common.s2l(pc[0]), int(pc[1])]) for pc in st["pctx"]],
                  common.s2l(st["dtd"]),
                  [([] if not c else [common.s2l(c[0])]) for c in st["fcache"]],
@@ -876,7 +927,7 @@ def judge(chk, tables, base_by_id, parse_base, seq, run, texts, where):
     stale_possible = set()
     for i, (o, r) in enumerate(zip(seq, run["ops"])):
         k = o["k"]
-        j0 = run["ops"][i - 1]["state"]["junkid"] if i else 0
+        j0 = eff_counter(run["ops"][i - 1]["state"] if i else None, o["f"]) if "f" in o else 0
         case = {"where": where, "sequence": describe(seq, texts, i + 1), "index": i}
         chk.count((where, tuple(x["id"] for x in seq[:i + 1])))
         chk.hist("op_kind", k)
@@ -955,7 +1006,11 @@ def union_suite(chk, rng, model):
         prog.append({"kind": kind, "perm": perm, "only": only})
     results = []
     for jb in prog:
-        results.append(run_forked_fn(union_job, (pairs, ext, jb)))
+        r = run_forked_fn(union_job, (pairs, ext, jb))
+        if "child_raised" in r:
+            chk.fail("multi-file-run-raised", jb, r["child_raised"])
+            return
+        results.append(r)
     ref = results[0]
     chk.sample({"suite": "UNION", "files": ref["names"], "summary": ref["summary"]})
     singles = [r for jb, r in zip(prog, results) if jb["kind"] == "single"]
@@ -1019,9 +1074,13 @@ def run_forked_fn(fn, args, timeout=300):
                 data = json.dumps(fn(*args))
             with os.fdopen(w, "w") as f:
                 f.write(data)
-        except BaseException as ex:  # noqa
+        except BaseException:  # noqa
             import traceback
-            os.write(2, ("c18 child: " + traceback.format_exc()).encode())
+            try:
+                with os.fdopen(w, "w") as f:
+                    f.write(json.dumps({"child_raised": traceback.format_exc()[-1500:]}))
+            except Exception:  # noqa
+                pass
             code = 1
         os._exit(code)
     os.close(w)
@@ -1029,7 +1088,7 @@ def run_forked_fn(fn, args, timeout=300):
         data = f.read()
     os.waitpid(pid, 0)
     if not data:
-        raise RuntimeError("forked job produced no output")
+        return {"child_raised": "no output"}
     return json.loads(data)
 
 
@@ -1117,6 +1176,11 @@ def witness_job(which):
 
 
 def witnesses(chk):
+    for w in ("junk-merge", "rewalk", "filtercache"):
+        r = run_forked_fn(witness_job, (w,))
+        if isinstance(r, dict) and "child_raised" in r:
+            chk.fail("witness-sequence-raised", {"witness": w}, r["child_raised"])
+            return
     a, b = run_forked_fn(witness_job, ("junk-merge",))
     chk.count(("witness", "junk-merge"))
     if a != b:
@@ -1141,6 +1205,34 @@ def witnesses(chk):
                  {"first": before, "after_edit": after, "fresh_config_with_the_rule": fresh})
 
 
+# the entries proposed for /verif/known_findings.json (the coordinator decides); with
+# VERIF_C18_PROPOSED_FINDINGS=1 the check treats them as listed, to show that nothing else fails
+PROPOSED_FINDINGS = [
+    {"property": "C18", "signature": "junk-key-collides-with-entity-key",
+     "description": "Junk.junkid leaks into results through key collisions: an entity whose key has the "
+                    "form _junk_<n>_<a>-<b> is taken for the Junk(a,b) of the other file (or of the same "
+                    "file, in lint) exactly when the process-wide counter happens to be n-1; e.g. "
+                    "merge_channels('f.properties', [b'_junk_1_0-5 = value\\n', b'junk\\n']) drops the "
+                    "junk line in a fresh interpreter and keeps it after any earlier parse that produced a Junk",
+     "witness": {"operation": "merge_channels('f.properties', [b'_junk_1_0-5 = value\\n', b'junk\\n'])",
+                 "fresh": "_junk_1_0-5 = value\\n", "after_one_junk": "junk\\n_junk_1_0-5 = value\\n"}},
+    {"property": "C18", "signature": "rewalk-inc-filter-state",
+     "description": "a second walk()/parse() of the same .inc context starts with the filter_empty_lines "
+                    "flag the first walk left on the context: a blank line above '#filter emptyLines' is "
+                    "Junk in the first walk and Whitespace in the second",
+     "witness": {"text": "#define A 1\\n\\n#filter emptyLines\\n",
+                 "first_walk": "Entity(0,11) Junk(11,13) DefinesInstruction(13,31) Whitespace(31,32)",
+                 "second_walk": "Entity(0,11) Whitespace(11,13) DefinesInstruction(13,31) Whitespace(31,32)"}},
+    {"property": "C18", "signature": "filtercache-stale-after-config-edit",
+     "description": "ProjectConfig.add_rules / add_paths do not clear ProjectConfig._cache (only "
+                    "_all_locales): a filter() for the locale queried last answers from the rules and paths "
+                    "of before the edit",
+     "witness": {"sequence": ["c.filter(File('/l/de/a.properties', 'a.properties', locale='de')) -> 'error'",
+                              "c.add_rules({'path': '/l/{locale}/a.properties', 'action': 'ignore'})",
+                              "c.filter(same file) -> 'error' (a fresh config with the rule: 'ignore')"]}},
+]
+
+
 # ========================================================================= run ===
 def draw_history(rng, ops, weights, n):
     return [rng.choices(ops, weights)[0] for _ in range(n)]
@@ -1154,6 +1246,10 @@ def run(chk, runner_ok):
     rng = chk.rng
     model = Model("C18") if runner_ok else None
     check_parser_table()
+    if os.environ.get("VERIF_C18_PROPOSED_FINDINGS") == "1":
+        chk.known.extend(f for f in PROPOSED_FINDINGS
+                         if not any(k["signature"] == f["signature"] for k in chk.known))
+        chk.notes.append("VERIF_C18_PROPOSED_FINDINGS=1: the three proposed findings are treated as listed")
     t0 = time.time()
     # ---- the minimal witnesses of the known history dependences (always first) ----
     witnesses(chk)
@@ -1174,8 +1270,16 @@ def run(chk, runner_ok):
     for t in range(len(texts[inc])):
         jobs.append([{"k": "walkflag", "f": inc, "t": t, "id": -1}])
         meta.append(("flag", inc, t))
+    for o in ops:
+        # reference of the MODEL's tables for operations whose junk keys collide when started
+        # at Junk.junkid == 0: the same operation with the counter preset far away
+        if o["k"] in ("compare", "lint", "merge", "serialize") and any(
+                JUNK_KEY.match(k) for t in set(Tables.op_texts(None, o))
+                for k in _re.findall(r"^(_junk_\d+_\d+-\d+)", texts[o["f"]][t], _re.M)):
+            jobs.append([dict(o, preset=500000)])
+            meta.append(("nocoll", o["id"], None))
     fresh = run_fresh(jobs, texts, par=chk.n(10, 12))
-    base_by_id, base_rec, parse_base, flagrows, filt_rows = {}, {}, {}, {}, []
+    base_by_id, base_rec, parse_base, flagrows, filt_rows, nocoll = {}, {}, {}, {}, [], {}
     intern = Interner()
     for (kind, a, b), out in zip(meta, fresh):
         rec = out["ops"][0]
@@ -1190,8 +1294,12 @@ def run(chk, runner_ok):
             o = ops[a]
             filt_rows.append([o["c"], b, o["loc"], o["path"],
                               [o["ent"]] if o["ent"] is not None else [], intern.id(rec["res"])])
+        elif kind == "nocoll":
+            nocoll[a] = rec
         else:
             flagrows[(a, b)] = rec
+    for a, rec in nocoll.items():
+        base_rec[a] = dict(base_rec[a], res=rec["res"])
     tables = Tables(texts, ops, [base_rec.get(o["id"], {"res": None, "state": None}) for o in ops],
                     flagrows, filt_rows, intern)
     chk.notes.append("pool: %d operations, %d fresh interpreters for the baselines (%.1fs)"
@@ -1199,21 +1307,22 @@ def run(chk, runner_ok):
     for f in range(7):
         chk.hist("texts_per_format", FMT[f] + ":%d" % len(texts[f]))
     # ---- histories ------------------------------------------------------------------
-    weights = [WEIGHT[o["k"]] for o in ops]
+    per_kind = {}
+    for o in ops:
+        per_kind[o["k"]] = per_kind.get(o["k"], 0) + 1
+    weights = [WEIGHT[o["k"]] / per_kind[o["k"]] for o in ops]
     nseq = chk.n(600, 6000)
     seqs = []
     for i in range(nseq):
-        n = 40 if i % 10 == 9 else rng.randint(2, 6)
+        n = 30 if i % 15 == 14 else rng.randint(2, 6)
         seqs.append(draw_history(rng, ops, weights, n))
     # targeted: every operation once directly after each of a few state-heavy prefixes
     heavy = [o for o in ops if o["k"] in ("parse", "compare")][:: max(1, len(ops) // 12)]
     for o in ops:
         seqs.append([rng.choice(heavy), o])
-    runs = []
-    for seq in seqs:
-        runs.append(run_forked(seq, texts))
-    chk.notes.append("histories: %d sequences, %d operations in total"
-                     % (len(seqs), sum(len(s) for s in seqs)))
+    runs = run_forked_many(seqs, texts)
+    chk.notes.append("histories: %d sequences, %d operations in total (%.1fs since start)"
+                     % (len(seqs), sum(len(s) for s in seqs), time.time() - t0))
     for seq, rn in zip(seqs, runs):
         chk.hist("history_length", len(seq))
         judge(chk, tables, base_by_id, parse_base, seq, rn, texts, "HISTORY")
@@ -1240,8 +1349,10 @@ def run(chk, runner_ok):
         outs = model.call([(1, list(k)) for k in ks])
         chk.correspond("JUNK-KEY", [list(k) for k in ks],
                        [common.s2l("_junk_%d_%d-%d" % k) for k in ks], outs)
+    chk.notes.append("oracle + model correspondence done %.1fs since start" % (time.time() - t0))
     # ---- multi-file runs -------------------------------------------------------------
     union_suite(chk, rng, model)
+    chk.notes.append("union suite done %.1fs since start" % (time.time() - t0))
     chk.trusted.append("fresh interpreter = `python -m harness.props.c18 --baseline` per operation; "
                        "histories run in children forked from a parent that has only imported the package")
     chk.trusted.append("modelled only: which process state each operation reads/writes; the purity of the "
